@@ -92,7 +92,7 @@ def run(ctx, coq_ok):
     for i in range(nt):
         jobs.append((corpus.gen_jinja(rng), i % 2, i % 5 == 0))
     plain = ["SELECT 1\n", "SELECT 1", "SELECT '{' , '}' FROM t\n", "SELECT { a } FROM t\n\n", "SELECT a\r\nFROM t\r\n", "SELECT a\rFROM t", "{ {x} }\n", "a{", "{", "}}\n",
-             "SELECT '}}' -- {\n", "\n", "\n\n", "  ", "SELECT a -- {{ not closed\n", "SELECT {# c #} 1\n", "{%- if flag -%}\n a \n{%- endif -%}\n", "SELECT {{ col }}\n\n\n",
+             "SELECT '}}' -- {\n", "\n", "\n\n", "  ", "SELECT a -- {{ not closed\n", "a{#", "select 1 {#-", "#}a{#", "select {{ col }} {#", "SELECT {# c #} 1\n", "{%- if flag -%}\n a \n{%- endif -%}\n", "SELECT {{ col }}\n\n\n",
              "{{ undefined_thing }}", "SELECT {{ undefined_thing.attr }} FROM t\n", "{% for x in undefined_list %}{{ x }}{% endfor %}\n", "{% set z = 1 %}{{ z }}"]
     for s in plain:
         for c in (0, 1):
